@@ -64,14 +64,16 @@ Definition prov_eqb (a b : prov) : bool :=
 
 Definition tag_op (k : kind) (p : pv) (_ : prov) : prov := PvOp k p.
 
-Definition tag_env : env (M := prov) :=
-  mkEnv (fun _ _ _ _ => PvRaw) (fun _ _ _ _ _ _ => false) (fun _ _ _ => false).
+(* err_ok: whether `mttkrp * factors[-1]` broadcasts when the last mode is not updated (decided by the harness from the shapes) *)
+Definition tag_env (err_ok : bool) : env (M := prov) :=
+  mkEnv (fun _ _ _ _ => PvRaw) (fun _ _ _ _ _ _ => false) (fun _ _ _ => false) (fun _ _ => err_ok).
 
-Definition model_trace (n : nat) (specs : list (@zspec pv)) (user_init : bool) (fixed : list nat)
+(* n_init: the number of factors of the user's CP tensor (= n for a computed initialisation) *)
+Definition model_trace (n : nat) (specs : list (@zspec pv)) (user_init : bool) (n_init : nat) (err_ok : bool) (fixed : list nat)
            (n_outer n_inner : nat) : res (list prov) :=
   if Nat.eqb (length specs) 12 then
-    constrained_cp PvOther tag_op (zvalidate pv_truthy n (with_names specs)) (fun _ _ => PvRaw) (fun _ _ => PvRaw) tag_env
-                   n (if user_init then IUser (map PvUser (seq 0 n)) else IComputed (repeat PvRaw n))
+    constrained_cp PvOther tag_op (zvalidate pv_truthy n (with_names specs)) (fun _ _ => PvRaw) (fun _ _ => PvRaw) (tag_env err_ok)
+                   n (if user_init then IUser (map PvUser (seq 0 n_init)) else IComputed (repeat PvRaw n))
                    fixed n_outer n_inner PvRaw
   else Err.
 
@@ -131,8 +133,8 @@ Definition feasb (k : kind) (p : pv) (rows : list (list Q)) : bool :=
 
 Inductive case :=
 | CTable (id n : nat) (specs : list (@zspec pv)) (expected : res (list (option (kind * pv))))
-| CTrace (id n : nat) (specs : list (@zspec pv)) (user_init : bool) (fixed : list nat) (n_outer n_inner : nat)
-         (expected : res (list prov))
+| CTrace (id n : nat) (specs : list (@zspec pv)) (user_init : bool) (n_init : nat) (err_ok : bool) (fixed : list nat)
+         (n_outer n_inner : nat) (expected : res (list prov))
 | CAdmm (id n : nat) (specs : list (@zspec pv)) (order n_iter : nat) (expected : res prov)
 | CProx (id n : nat) (specs : list (@zspec pv)) (order : nat) (expected : res prov)
 | CFeas (id : nat) (k : kind) (p : pv) (rows : list (list Q)).
@@ -140,11 +142,11 @@ Inductive case :=
 Definition agree (c : case) : bool :=
   match c with
   | CTable _ n specs expected => res_eqb (list_eqb entry_eqb) (model_table n specs) expected
-  | CTrace _ n specs ui fixed no ni expected => res_eqb (list_eqb prov_eqb) (model_trace n specs ui fixed no ni) expected
+  | CTrace _ n specs ui nin eok fixed no ni expected => res_eqb (list_eqb prov_eqb) (model_trace n specs ui nin eok fixed no ni) expected
   | CAdmm _ n specs order ni expected => res_eqb prov_eqb (model_admm n specs order ni) expected
   | CProx _ n specs order expected => res_eqb prov_eqb (model_prox n specs order) expected
   | CFeas _ k p rows => feasb k p rows
   end.
 Definition ident (c : case) : nat :=
-  match c with CTable i _ _ _ => i | CTrace i _ _ _ _ _ _ _ => i | CAdmm i _ _ _ _ _ => i | CProx i _ _ _ _ => i | CFeas i _ _ _ => i end.
+  match c with CTable i _ _ _ => i | CTrace i _ _ _ _ _ _ _ _ _ => i | CAdmm i _ _ _ _ _ => i | CProx i _ _ _ _ => i | CFeas i _ _ _ => i end.
 Definition failing := failing_ids agree ident.
